@@ -53,7 +53,7 @@ def configs(tier):
                 yield dict(name="real-%s-%s-%s" % (be, fn, "".join(map(str, ns))), what="real", backend=be, fn=fn,
                            ns=list(ns), fork=fn.startswith("spike_pro") or fn.startswith("spike_dist") or fn.startswith("isi_"),
                            cost=30 * 8 ** sum(ns), validate=2, split_forks=(7 if sum(ns) >= 3 else None))
-                if not (fn.startswith("spike_pro") or fn.startswith("spike_dist")) and sum(ns) <= 3:
+                if not (fn.startswith("spike_pro") or fn.startswith("spike_dist")) and sum(ns) <= 3 and max(ns) <= 1:
                     # MRTS='auto' must be honoured identically through every call form; one index
                     # list per configuration (each list has its own threshold = its own sqrt symbol)
                     for idx in ([2, 0], [1, 2], [2, 1, 0]):
